@@ -14,6 +14,8 @@ anchored code of the path machinery:
   do_cm                     -> cmPremultiplies (`mult_matrix(matrix, self.ctm)` vs `mult_matrix(self.ctm, matrix)`)
   _initial_color            -> initNoneFamily, initMaxComponents, initCmykFamily, initCmyk, initOneFamilies
                                (the constants of the straight-line code; its shape is checked)
+  init_state                -> initStateResets (the interpreter attributes overwritten with a fresh value for
+                               every page / content: gstack ctm textstate graphicstate curpath argstack scs ncs)
   do_W do_W_a               -> checked to have an empty body (docstring only): clipping does not paint
   converter.PDFLayoutAnalyzer.paint_path (the straight-line tests of the single-sub-path branch):
       `len(shape) > K and shape[-N:] == S and pts[-i] == pts[j]`, `shape = shape[:-M] + T; pts.pop()`
@@ -548,6 +550,25 @@ def initial_color(fn: ast.FunctionDef) -> str:
             f"def initOneFamilies : List String := [{', '.join(P.lean_string(x) for x in ones)}]\n\n")
 
 
+def init_state_resets(fn: ast.FunctionDef) -> list:
+    """Attributes `self.X` that init_state overwrites UNCONDITIONALLY with a value that does not depend on the
+    interpreter's previous state ([], the ctm parameter, a fresh PDFTextState()/PDFGraphicState(), None)."""
+    fresh = {"[]", "ctm", "PDFTextState()", "PDFGraphicState()", "None"}
+    res = []
+    for st in body_wo_doc(fn):
+        tgt = val = None
+        if isinstance(st, ast.Assign) and len(st.targets) == 1:
+            tgt, val = st.targets[0], st.value
+        elif isinstance(st, ast.AnnAssign) and st.value is not None:
+            tgt, val = st.target, st.value
+        if tgt is not None and self_attr(tgt):
+            if ast.unparse(val) not in fresh:
+                raise P.Untranslatable(f"init_state: self.{tgt.attr} = {ast.unparse(val)} is not a fresh value")
+            if tgt.attr not in res:
+                res.append(tgt.attr)
+    return res
+
+
 def generate(lean_dir: str):
     out = [P.HEADER.format(src="pdfminer/utils.py, pdfcolor.py, pdfinterp.py, converter.py", ns="PathsGen")]
     # --- matrix helpers
@@ -614,6 +635,9 @@ def generate(lean_dir: str):
     out.append("/-- `do_cm`: `self.ctm = mult_matrix(matrix, self.ctm)` (true) or `mult_matrix(self.ctm, matrix)` (false). -/\n"
                f"def cmPremultiplies : Bool := {str(cm_order(methods['do_cm'])).lower()}\n\n")
     out.append(initial_color(methods["_initial_color"]))
+    out.append("/-- `init_state` (run by `render_contents` for every page): the interpreter attributes it overwrites\n"
+               "with a fresh value. -/\ndef initStateResets : List String :=\n  [" +
+               ", ".join(P.lean_string(x) for x in init_state_resets(methods["init_state"])) + "]\n\n")
     for w in ("do_W", "do_W_a"):
         if w not in methods or body_wo_doc(methods[w]) not in ([],) and \
                 not all(isinstance(x, ast.Pass) for x in body_wo_doc(methods[w])):
